@@ -30,6 +30,7 @@
   locally computed values before the block is stored (the stored block is the sealed one).
 -/
 import LemoProofs.Lemmas.Validator
+import Mathlib.Data.Nat.Pairing
 namespace LemoProofs.C02
 open LemoModel LemoModel.Validator LemoModel.Sched LemoGen.Schedule LemoGen.TxWindow LemoProofs.ValidatorLemmas
 
@@ -74,7 +75,7 @@ theorem accept_sound (c : Ctx) (b : Block) (hinj : HashInjective c)
       c.load b.header.parentHash = some parent ∧
       b.header.height = parent.height + 1 ∧
       parent.time ≤ b.header.time ∧ (b.header.time : Int) ≤ c.now + 1 ∧ 10000000 ≤ b.header.time ∧
-      b.header.extra.length ≤ 256 ∧
+      b.header.extra.length ≤ maxExtraDataLen ∧
       -- signer: a deputy of the block's term whose miner address is the header's
       c.recover (c.hash b.header.hashed) b.header.signData = some signer.nodeId ∧
       signer ∈ c.deputies b.header.height ∧ signer.miner = b.header.miner ∧
@@ -86,7 +87,8 @@ theorem accept_sound (c : Ctx) (b : Block) (hinj : HashInjective c)
       (c.deputies b.header.height)[r]? = some inTurn ∧ inTurn.miner = b.header.miner ∧
       -- transactions
       c.merkleRoot b.txs = b.header.txRoot ∧
-      c.onAncestor b.header.parentHash b.txs = false ∧
+      c.onAncestor b.header.parentHash b.txs = some false ∧
+      (c.dupCheck = true → hasDup (blockHashes b.txs) = false) ∧
       (∀ tx ∈ b.txs, b.header.time ≤ tx.exp ∧ tx.exp ≤ b.header.time + 1800 ∧ tx.bodyOk = true) ∧
       -- re-execution reproduces the header
       c.reexec b = .ok vr lr tr gu ldr ∧
@@ -99,7 +101,7 @@ theorem accept_sound (c : Ctx) (b : Block) (hinj : HashInjective c)
   · rename_i hb
     obtain ⟨parent, hload, hsig, htxr, hh, hfut, hex, htxs, hvm⟩ := verifyBefore_ok hb
     obtain ⟨signer, hrec, hmem, hminer⟩ := verifySigner_none hsig
-    obtain ⟨hanc, hall⟩ := verifyTxs_none htxs
+    obtain ⟨hdup, hanc, hall⟩ := verifyTxs_ok htxs
     obtain ⟨r, d, hturn, hd, hdm⟩ := verifyMiner_ok hvm
     obtain ⟨h1e7, hpt, _, _, hcm⟩ := turn_ok hturn
     obtain ⟨vr, lr, tr, gu, ldr, hre, hsnap, hlogs, hlr, hhash⟩ := verifyAfter_ok hok
@@ -108,9 +110,9 @@ theorem accept_sound (c : Ctx) (b : Block) (hinj : HashInjective c)
       rw [← hh, GoSem.uadd_small (hu32 parent hload)]
     rw [hh] at hcm hd
     refine ⟨parent, signer, d, r, vr, lr, tr, gu, ldr, hload, hheight, hpt, hfut, h1e7, hex, hrec, hmem, hminer,
-      hcm, hd, hdm, htxr, hanc, ?_, hre, ?_, hlr.symm, ?_, ?_, ?_, ?_⟩
+      hcm, hd, hdm, htxr, hanc, hdup, ?_, hre, ?_, hlr.symm, ?_, ?_, ?_, ?_⟩
     · intro tx htx
-      exact txOk_bounds (hexp tx htx) (hall tx htx)
+      exact txOk_bounds (hexp tx htx) (hall tx htx).1
     · have := congrArg Header.versionRoot hseal
       simpa [sealHeader, Header.hashed] using this.symm
     · have := congrArg Header.txRoot hseal
@@ -129,6 +131,32 @@ theorem accept_sound (c : Ctx) (b : Block) (hinj : HashInjective c)
     | ignored => rw [hvb] at hok; cases hok
     | reject r => rw [hvb] at hok; cases hok
     | panic => rw [hvb] at hok; cases hok
+    | saveFailed => rw [hvb] at hok; cases hok
+
+/-- **accept_signer_is_in_turn** (the clause "signed by the deputy whose slot it is", as an identity):
+    `accept_sound` only gives `signer.miner = header.miner = inTurn.miner`. `NewTermRecord` checks ranks and
+    votes but NOT that miner addresses (or node ids) are pairwise different, so the identity needs the
+    hypothesis `hnodup` (true on the real engine because a deputy list is cut from the candidate ranking,
+    which is keyed by the candidate's account address = its miner address). Under it the recovered signer
+    IS the deputy at the rank the C13 schedule names. -/
+theorem accept_signer_is_in_turn (c : Ctx) (b : Block) (hinj : HashInjective c)
+    (hexp : ∀ tx ∈ b.txs, tx.exp < 18446744073709551616)
+    (hu32 : ∀ p, c.load b.header.parentHash = some p → p.height + 1 < u32)
+    (hnodup : ∀ d1 ∈ c.deputies b.header.height, ∀ d2 ∈ c.deputies b.header.height, d1.miner = d2.miner → d1 = d2)
+    (hok : accept c b = .ok) :
+    ∃ (parent : Header) (signer : Deputy) (r : Nat),
+      c.load b.header.parentHash = some parent ∧
+      c.recover (c.hash b.header.hashed) b.header.signData = some signer.nodeId ∧
+      correctMiner (c.deputies b.header.height).length
+        (isSpecial b.header.height c.termDuration c.interimDuration)
+        (rankOfMiner (c.deputies b.header.height) parent.miner)
+        parent.time parent.height ((b.header.time : Int) * 1000) c.mineTimeout = .ok r ∧
+      (c.deputies b.header.height)[r]? = some signer := by
+  obtain ⟨parent, signer, d, r, _, _, _, _, _, hload, _, _, _, _, _, hrec, hmem, hminer, hcm, hd, hdm, _⟩ :=
+    accept_sound c b hinj hexp hu32 hok
+  have hdmem : d ∈ c.deputies b.header.height := List.mem_of_getElem? hd
+  have : signer = d := hnodup signer hmem d hdmem (by rw [hminer, hdm])
+  exact ⟨parent, signer, r, hload, hrec, hcm, by rw [this]; exact hd⟩
 
 /-- the accepted block's miner, in closed form (C13 `rotation`): if the block is stamped `k` whole slots
     (+ a remainder `< T`) after its parent, its miner is the deputy of rank `(rank(parent) + k + 1) mod n`
@@ -174,10 +202,14 @@ theorem accepted_slot_owner (c : Ctx) (b : Block) (hinj : HashInjective c)
 
 /-! ### reject_no_effect -/
 
-/-- the verdict of `insertBlock` is `ignored` or the acceptance decision -/
-theorem insert_verdict {σ : Type} (view : σ → Ctx) (save : σ → Block → σ) (e : Engine σ) (b : Block) :
+/-- the verdict of `insertBlock`: `ignored`, or the acceptance decision — refined by the outcome of the save
+    when that decision is ok -/
+theorem insert_verdict {σ : Type} (view : σ → Ctx) (save : σ → Block → σ × Bool) (e : Engine σ) (b : Block) :
     (insertBlock view save e b).2 =
-      if ignorable (view e.durable) b then .ignored else accept (view e.durable) b := by
+      if ignorable (view e.durable) b then .ignored
+      else match accept (view e.durable) b with
+        | .ok => if (save e.durable b).2 then .ok else .saveFailed
+        | v => v := by
   unfold insertBlock accept
   simp only
   split
@@ -189,50 +221,117 @@ theorem insert_verdict {σ : Type} (view : σ → Ctx) (save : σ → Block → 
     | ignored => rfl
     | reject r => rfl
     | panic => rfl
+    | saveFailed => rfl
 
-/-- **reject_no_effect**: whenever the verdict is not `ok` (ignored, rejected for any reason, or a panic),
-    the durable engine state — everything `saveNewBlock` may touch: store, stable pointer, head, tx guard,
-    tx pool, term table — is exactly what it was. -/
-theorem reject_no_effect {σ : Type} (view : σ → Ctx) (save : σ → Block → σ) (e : Engine σ) (b : Block)
-    (h : (insertBlock view save e b).2 ≠ .ok) : (insertBlock view save e b).1.durable = e.durable := by
-  unfold insertBlock at h ⊢
-  simp only at h ⊢
+/-- **reject_no_effect**: whenever the verdict comes from VERIFICATION — ignored, rejected for any reason,
+    or a panic inside a check — the durable engine state (everything `TryConfirm`/`saveNewBlock` may touch:
+    store, stable pointer, head, tx guard, tx pool, term table, last signature) is exactly what it was.
+
+    Scope, stated honestly: the checks of the model are pure functions of the node view, so what this
+    theorem certifies is the CONTROL FLOW — the only writer, `save`, is reached solely through
+    `accept = .ok` (see `ok_saves`, `saveFailed_only_after_accept`). That no verification step of the Go
+    code writes durable state is checked on the real engine by the before/after fingerprint oracle of
+    `hx c02` (`c02/reject-side-effect/*`), not by this theorem.  The remaining non-ok verdict, `.saveFailed`,
+    is NOT covered and is false there: see `save_failure_leaves_state`. -/
+theorem reject_no_effect {σ : Type} (view : σ → Ctx) (save : σ → Block → σ × Bool) (e : Engine σ) (b : Block)
+    (h : (insertBlock view save e b).2 ≠ .ok) (hs : (insertBlock view save e b).2 ≠ .saveFailed) :
+    (insertBlock view save e b).1.durable = e.durable := by
+  unfold insertBlock at h hs ⊢
+  simp only at h hs ⊢
   by_cases hi : ignorable (view e.durable) b = true
   · simp [hi]
   · cases hvb : verifyBefore (view e.durable) b with
     | ok =>
       cases hva : verifyAfter (view e.durable) b with
-      | ok => simp [hi, hvb, hva] at h
+      | ok =>
+        by_cases hsv : (save e.durable b).2 = true
+        · simp [hi, hvb, hva, hsv] at h
+        · simp [hi, hvb, hva, hsv] at hs
       | ignored => simp [hi]
       | reject r => simp [hi]
       | panic => simp [hi]
+      | saveFailed => simp [hi]
     | ignored => simp [hi]
     | reject r => simp [hi]
     | panic => simp [hi]
+    | saveFailed => simp [hi]
 
-/-- a block is saved only when it is not ignorable and `accept` says ok; then exactly `save` is applied -/
-theorem ok_saves {σ : Type} (view : σ → Ctx) (save : σ → Block → σ) (e : Engine σ) (b : Block)
+/-- the property's clause read on the BLOCK instead of on the verdict: a block that is ignorable or that
+    `accept` does not pass can neither change the durable state nor come back as ok / save error -/
+theorem invalid_block_no_effect {σ : Type} (view : σ → Ctx) (save : σ → Block → σ × Bool) (e : Engine σ) (b : Block)
+    (h : ignorable (view e.durable) b = true ∨ accept (view e.durable) b ≠ .ok) :
+    (insertBlock view save e b).1.durable = e.durable ∧ (insertBlock view save e b).2 ≠ .ok ∧
+    (insertBlock view save e b).2 ≠ .saveFailed := by
+  have hv := insert_verdict view save e b
+  have hne : (insertBlock view save e b).2 ≠ .ok ∧ (insertBlock view save e b).2 ≠ .saveFailed := by
+    rw [hv]
+    by_cases hi : ignorable (view e.durable) b = true
+    · simp [hi]
+    · have hacc : accept (view e.durable) b ≠ .ok := by
+        rcases h with h | h
+        · exact absurd h hi
+        · exact h
+      simp only [hi, Bool.false_eq_true, if_false]
+      have hsf : accept (view e.durable) b ≠ .saveFailed := accept_ne_saveFailed _ _
+      cases hacc' : accept (view e.durable) b with
+      | ok => exact absurd hacc' hacc
+      | ignored => simp
+      | reject r => simp
+      | panic => simp
+      | saveFailed => exact absurd hacc' hsf
+  exact ⟨reject_no_effect view save e b hne.1 hne.2, hne⟩
+
+/-- a block is saved only when it is not ignorable and `accept` says ok; then exactly `save` is applied
+    and it reported success -/
+theorem ok_saves {σ : Type} (view : σ → Ctx) (save : σ → Block → σ × Bool) (e : Engine σ) (b : Block)
     (h : (insertBlock view save e b).2 = .ok) :
     ignorable (view e.durable) b = false ∧ accept (view e.durable) b = .ok ∧
-    (insertBlock view save e b).1.durable = save e.durable b := by
-  have hv := insert_verdict view save e b
-  rw [h] at hv
+    (save e.durable b).2 = true ∧ (insertBlock view save e b).1.durable = (save e.durable b).1 := by
   by_cases hi : ignorable (view e.durable) b = true
-  · simp [hi] at hv
-  · have hi' : ignorable (view e.durable) b = false := by simpa using hi
-    simp only [hi', Bool.false_eq_true, if_false] at hv
-    refine ⟨hi', hv.symm, ?_⟩
-    unfold accept at hv
-    unfold insertBlock
-    simp only [hi', Bool.false_eq_true, if_false]
-    cases hvb : verifyBefore (view e.durable) b with
-    | ok =>
-      rw [hvb] at hv
-      simp only at hv ⊢
-      rw [← hv]
-    | ignored => rw [hvb] at hv; cases hv
-    | reject r => rw [hvb] at hv; cases hv
-    | panic => rw [hvb] at hv; cases hv
+  · have := (invalid_block_no_effect view save e b (Or.inl hi)).2.1
+    exact absurd h this
+  · by_cases hacc : accept (view e.durable) b = .ok
+    · have hi' : ignorable (view e.durable) b = false := by simpa using hi
+      have hv := insert_verdict view save e b
+      rw [h] at hv
+      simp only [hi', Bool.false_eq_true, if_false, hacc] at hv
+      have hsv : (save e.durable b).2 = true := by
+        by_cases hsv : (save e.durable b).2 = true
+        · exact hsv
+        · simp [hsv] at hv
+      refine ⟨hi', hacc, hsv, ?_⟩
+      unfold accept at hacc
+      unfold insertBlock
+      simp only [hi', Bool.false_eq_true, if_false]
+      cases hvb : verifyBefore (view e.durable) b with
+      | ok =>
+        rw [hvb] at hacc
+        simp only at hacc ⊢
+        rw [hacc]
+      | ignored => rw [hvb] at hacc; cases hacc
+      | reject r => rw [hvb] at hacc; cases hacc
+      | panic => rw [hvb] at hacc; cases hacc
+      | saveFailed => rw [hvb] at hacc; cases hacc
+    · have := (invalid_block_no_effect view save e b (Or.inr hacc)).2.1
+      exact absurd h this
+
+/-- a save error is only ever reported for a block that passed EVERY check (so it is outside the property's
+    "any other block is rejected"); the state is then whatever `save` left behind -/
+theorem saveFailed_only_after_accept {σ : Type} (view : σ → Ctx) (save : σ → Block → σ × Bool) (e : Engine σ) (b : Block)
+    (h : (insertBlock view save e b).2 = .saveFailed) :
+    ignorable (view e.durable) b = false ∧ accept (view e.durable) b = .ok ∧ (save e.durable b).2 = false := by
+  by_cases hi : ignorable (view e.durable) b = true
+  · exact absurd h (invalid_block_no_effect view save e b (Or.inl hi)).2.2
+  · by_cases hacc : accept (view e.durable) b = .ok
+    · have hi' : ignorable (view e.durable) b = false := by simpa using hi
+      have hv := insert_verdict view save e b
+      rw [h] at hv
+      simp only [hi', Bool.false_eq_true, if_false, hacc] at hv
+      refine ⟨hi', hacc, ?_⟩
+      by_cases hsv : (save e.durable b).2 = true
+      · simp [hsv] at hv
+      · simpa using hsv
+    · exact absurd h (invalid_block_no_effect view save e b (Or.inr hacc)).2.2
 
 /-! ### accept_total -/
 
@@ -240,7 +339,9 @@ namespace Witness
 
 def deps : List Deputy := [⟨10, 100⟩, ⟨11, 101⟩, ⟨12, 102⟩]
 
-/-- an injective toy hash: positional encoding of the hashed tuple -/
+/-- a toy hash: positional encoding of the hashed tuple. NOT injective in general (the digits are unbounded:
+    `[0, 2^32]` and `[1, 0]` collide) — good enough for `decide`d witnesses, which never rely on
+    `HashInjective`; `ctxInj` below carries a provably injective one. -/
 def enc (h : Header) : Nat :=
   ([h.parentHash, h.miner, h.versionRoot, h.txRoot, h.logRoot, h.height, h.gasLimit, h.gasUsed, h.time,
     h.signData, h.deputyRoot, h.extra.length] ++ h.extra).foldl (fun acc x => acc * 4294967296 + x + 1) 1
@@ -256,7 +357,7 @@ def ctx : Ctx :=
     load := fun x => if x == 7 then some parent else none
     deputies := fun _ => deps
     now := 30000000, mineTimeout := 10000, termDuration := 1000000, interimDuration := 1000
-    hash := enc, recover := fun _ s => some s, merkleRoot := fun _ => 2, onAncestor := fun _ _ => false
+    hash := enc, recover := fun _ s => some s, merkleRoot := fun _ => 2, onAncestor := fun _ _ => some false
     reexec := fun _ => .ok 1 3 2 0 0 }
 
 /-- an honest empty block of deputy 1 (rank 1 follows rank 0), stamped 5 s after its parent -/
@@ -279,7 +380,7 @@ example : accept Witness.ctx Witness.honest = .ok := by decide
     now an ordinary rejection — through `accept` and through `insertBlock` -/
 theorem tiny_stamp_rejected :
     accept Witness.ctx Witness.tiny = .reject .smallerTime ∧
-    (insertBlock (σ := Unit) (fun _ => Witness.ctx) (fun u _ => u) ⟨(), none⟩ Witness.tiny).2 = .reject .smallerTime := by
+    (insertBlock (σ := Unit) (fun _ => Witness.ctx) (fun u _ => (u, true)) ⟨(), none⟩ Witness.tiny).2 = .reject .smallerTime := by
   decide
 
 /-- frozen copy of the function tools/go2lean generated from schedule.go BEFORE fix 26f228d -/
@@ -306,15 +407,23 @@ theorem legacy_getCorrectMiner_panics :
       (parent_Height := 4) (parent_MinerAddress := 0) = .err "ErrSmallerMineTime" := by
   decide
 
-/-- **accept_total** (FULL): `accept` never panics, for every node view and every block.
-    Remaining hypotheses, none about the block's content:
+/-- **accept_total**: `accept` never panics, for every node view and every block, PROVIDED none of the
+    abstract inputs that can panic in Go does. The hypotheses name every such input:
+    * `hanc` — `TxGuard.ExistTxs` does not panic (`BlockCache.IsAppearedOnFork` panics when a traced block or
+      the start block is missing from the guard's cache: property C04's ground);
+    * `hbody` — `VerifyTxBody` does not panic on any tx of the block (it did on a nil sub-tx of a box before
+      fix d73a53d: the skeleton alone could not see that);
+    * `hexec` — re-execution (`TxProcessor.Process` + `Finalize`) does not panic: the execution properties;
+    * `recover` and `merkleRoot` are total in Go as well (`crypto.Ecrecover` returns an error, the Merkle
+      root is a fold over the list), so they need no hypothesis;
+    and the structural ones, none about the block's content:
     * `hT` — the configured slot length is positive (`passTime % (n*T)` divides by it; Config invariant);
-    * `hexec` — re-execution (`TxProcessor.Process` + `Finalize`, abstract here) does not panic: that is the
-      subject of the execution properties, not of the validator;
     * `hn'` — fewer than 10^9 deputies at the block's height (the uint32 index arithmetic of
       `GetDeputyByDistance`, as in C13; `DeputyCount` is a small config value);
     * `hu32` — the parent's height + 1 fits uint32 (otherwise `GetDeputyByDistance(0, …)` panics). -/
 theorem accept_total (c : Ctx) (b : Block)
+    (hanc : c.onAncestor b.header.parentHash b.txs ≠ none)
+    (hbody : ∀ tx ∈ b.txs, tx.bodyPanics = false)
     (hT : 0 < c.mineTimeout)
     (hexec : c.reexec b ≠ .panic)
     (hn' : (c.deputies b.header.height).length < 1000000000)
@@ -324,7 +433,10 @@ theorem accept_total (c : Ctx) (b : Block)
   unfold accept at hp
   split at hp
   · exact hexec (verifyAfter_panic hp)
-  · obtain ⟨parent, hload, hsig, hh, hvm⟩ := verifyBefore_panic hp
+  · rcases verifyBefore_panic hp with htx | ⟨parent, hload, hsig, hh, hvm⟩
+    · rcases verifyTxs_panic htx with h | ⟨tx, htx, hpn⟩
+      · exact hanc h
+      · rw [hbody tx htx] at hpn; cases hpn
     obtain ⟨signer, _, hmem, _⟩ := verifySigner_none hsig
     have hn : 0 < (c.deputies b.header.height).length := List.length_pos_of_mem hmem
     have htarget : GoSem.uadd u32 parent.height 1 = parent.height + 1 := GoSem.uadd_small (hu32 parent hload)
@@ -365,6 +477,92 @@ theorem accept_total (c : Ctx) (b : Block)
         rw [List.getElem?_eq_none_iff] at hnone
         omega
       · rw [he] at hcm; cases hcm
+
+/-! ### non-vacuity of `HashInjective ∧ accept = .ok` -/
+
+/-- Cantor-pairing encoding of a list -/
+def encL : List Nat → Nat
+  | [] => 0
+  | x :: xs => Nat.pair x (encL xs) + 1
+
+theorem encL_inj : ∀ a b : List Nat, encL a = encL b → a = b
+  | [], [], _ => rfl
+  | [], _ :: _, h => by simp [encL] at h
+  | _ :: _, [], h => by simp [encL] at h
+  | x :: xs, y :: ys, h => by
+    simp only [encL, Nat.add_right_cancel_iff, Nat.pair_eq_pair] at h
+    rw [h.1, encL_inj xs ys h.2]
+
+/-- a provably injective header hash -/
+def encH (h : Header) : Nat :=
+  Nat.pair h.parentHash (Nat.pair h.miner (Nat.pair h.versionRoot (Nat.pair h.txRoot (Nat.pair h.logRoot
+    (Nat.pair h.height (Nat.pair h.gasLimit (Nat.pair h.gasUsed (Nat.pair h.time (Nat.pair h.signData
+      (Nat.pair h.deputyRoot (encL h.extra)))))))))))
+
+theorem encH_inj : ∀ x y : Header, encH x = encH y → x = y := by
+  intro x y h
+  cases x; cases y
+  simp only [encH, Nat.pair_eq_pair] at h
+  obtain ⟨h1, h2, h3, h4, h5, h6, h7, h8, h9, h10, h11, h12⟩ := h
+  simp only [Header.mk.injEq]
+  exact ⟨h1, h2, h3, h4, h5, h6, h7, h8, h9, h10, h11, encL_inj _ _ h12⟩
+
+attribute [irreducible] encH
+
+/-- the witness node with the injective hash -/
+def ctxInj : Ctx :=
+  { stored := fun _ => false, stableHeight := 3
+    load := fun x => if x == 7 then some Witness.parent else none
+    deputies := fun _ => Witness.deps
+    now := 30000000, mineTimeout := 10000, termDuration := 1000000, interimDuration := 1000
+    hash := encH, recover := fun _ s => some s, merkleRoot := fun _ => 2, onAncestor := fun _ _ => some false
+    reexec := fun _ => .ok 1 3 2 0 0 }
+
+/-- **hypotheses_satisfiable**: the hypotheses of `accept_sound` / `accept_signer_is_in_turn` hold TOGETHER
+    with `accept = .ok` on a concrete node: injective hash, pairwise different miner addresses, accepted block. -/
+theorem hypotheses_satisfiable :
+    HashInjective ctxInj ∧ accept ctxInj Witness.honest = .ok ∧
+    (∀ d1 ∈ ctxInj.deputies Witness.honest.header.height, ∀ d2 ∈ ctxInj.deputies Witness.honest.header.height,
+      d1.miner = d2.miner → d1 = d2) := by
+  refine ⟨fun x y h => encH_inj x y h, ?_, by decide⟩
+  have h1 : verifyBefore ctxInj Witness.honest = .ok := by decide
+  have h2 : verifyAfter ctxInj Witness.honest = .ok := by
+    simp [verifyAfter, ctxInj, Witness.honest, bodyLogsBad, sealHeader, LemoGen.Schedule.IsSnapshotBlock, Header.hashed]
+  unfold accept
+  rw [h1]
+  exact h2
+
+/-! ### witnesses for the honest restatements -/
+
+/-- **save_failure_leaves_state** (refutes "every non-ok return leaves the state as it was"): with a `save`
+    that fails after its first write — on the real engine: ErrSaveAccount after `SetBlock`, reproduced by the
+    fault-injection probe of `hx c02`, oracle `c02/save-error-leaves-state` — the verdict is a save error
+    and the durable state has changed. -/
+theorem save_failure_leaves_state :
+    let r := insertBlock (σ := Nat) (fun _ => Witness.ctx) (fun s _ => (s + 1, false)) ⟨0, none⟩ Witness.honest
+    r.2 = .saveFailed ∧ r.1.durable ≠ 0 := by decide
+
+/-- the two panic hypotheses of `accept_total` are needed: each input alone makes `accept` panic -/
+theorem accept_panics_through_inputs :
+    accept { Witness.ctx with onAncestor := fun _ _ => none } Witness.honest = .panic ∧
+    accept Witness.ctx { Witness.honest with txs := [⟨1, 20000010, true, [], [], true⟩] } = .panic := by decide
+
+/-- two deputies with the same miner address: the signer (node id 13, rank 3) is NOT the deputy at the rank in
+    turn (rank 1), yet the block is accepted — why `accept_signer_is_in_turn` needs `hnodup` -/
+theorem duplicate_miner_address_breaks_identity :
+    let c : Ctx := { Witness.ctx with deputies := fun _ => Witness.deps ++ [⟨13, 101⟩] }
+    let b : Block := { Witness.honest with header := { Witness.honest.header with signData := 13 } }
+    accept c b = .ok ∧ c.recover 0 b.header.signData = some 13 ∧ (c.deputies 5)[1]? = some ⟨11, 101⟩ := by decide
+
+/-- **duplicate_node_id_shadows_deputy** (witness; real engine: probe G of `hx c02`, oracle
+    `c02/deputy-identity/duplicate-node-id`): node ids are free text of the register transaction and nothing
+    checks them for uniqueness. With a squatter ⟨node id 11, miner 200⟩ ranked above the genuine deputy
+    ⟨11, 101⟩, `GetDeputyByNodeID` finds the squatter first: the genuine deputy's own honest block is rejected
+    (`minerMismatch`), while the SAME signature over a block naming the squatter's address passes the signer check. -/
+theorem duplicate_node_id_shadows_deputy :
+    let c : Ctx := { Witness.ctx with deputies := fun _ => [⟨11, 200⟩, ⟨10, 100⟩, ⟨11, 101⟩, ⟨12, 102⟩] }
+    verifySigner c Witness.honest = some .minerMismatch ∧
+    verifySigner c { Witness.honest with header := { Witness.honest.header with miner := 200 } } = none := by decide
 
 /-! ### what acceptance leaves unconstrained -/
 
@@ -446,6 +644,7 @@ theorem seal_copied_fields_unconstrained (c : Ctx) (b : Block) (g dr s' : Nat) (
   | ignored => rw [hvb] at hok; cases hok
   | reject r => rw [hvb] at hok; cases hok
   | panic => rw [hvb] at hok; cases hok
+  | saveFailed => rw [hvb] at hok; cases hok
 
 /-- **gasLimit_unconstrained** (witnesses): the witness node accepts the honest block re-stamped with gas
     limit 0, 1 or 2^64-1 (re-signed by the same in-turn deputy) on a parent whose limit is 105000000 —
@@ -465,18 +664,18 @@ theorem deputyRoot_unconstrained_off_snapshot :
 /-- **duplicate_in_block_rejected**: for every node and every block, a tx hash or box sub-tx hash that occurs twice
     inside the block makes `verifyTxs` fail (current code, fix 828f704). -/
 theorem duplicate_in_block_rejected (c : Ctx) (b : Block) (hc : c.dupCheck = true)
-    (hd : hasDup (blockHashes b.txs) = true) : verifyTxs c b = some .txReplay := by
+    (hd : hasDup (blockHashes b.txs) = true) : verifyTxs c b = .reject .txReplay := by
   unfold verifyTxs; simp [hc, hd]
 
 /-- **box_sub_tx_inside_window**: in an accepted block the transactions INSIDE every box are inside the lifetime
     window of the block time as well (`checkBoxTx` passes the block time on, not the box's expiration). -/
-theorem box_sub_tx_inside_window (c : Ctx) (b : Block) (h : verifyTxs c b = none) :
+theorem box_sub_tx_inside_window (c : Ctx) (b : Block) (h : verifyTxs c b = .ok) :
     ∀ tx ∈ b.txs, ∀ e ∈ tx.subExps, e < 18446744073709551616 → b.header.time ≤ e ∧ e ≤ b.header.time + 1800 := by
   intro tx htx
-  exact txOk_sub_bounds ((verifyTxs_none h).2 tx htx)
+  exact txOk_sub_bounds ((verifyTxs_ok h).2.2 tx htx).1
 
 /-- witness: a box inside the window whose sub-tx expires 1801 s after the block time is rejected -/
-example : accept Witness.ctx { Witness.honest with txs := [⟨2, 20000010, true, [5], [20000005 + 1801]⟩] } = .reject .txBody := by
+example : accept Witness.ctx { Witness.honest with txs := [⟨2, 20000010, true, [5], [20000005 + 1801], false⟩] } = .reject .txBody := by
   decide
 
 /-- **duplicate_tx_in_block_accepted** (witness, code BEFORE fix 828f704 = `dupCheck := false`): nothing in the
@@ -484,16 +683,16 @@ example : accept Witness.ctx { Witness.honest with txs := [⟨2, 20000010, true,
     ancestors); when re-execution of such a block succeeded — it did on the real engine, oracle
     `c02/accepted-invalid/tx-duplicate-in-block` — the block was accepted.  The current code rejects it. -/
 theorem duplicate_tx_in_block_accepted :
-    let b : Block := { Witness.honest with txs := [⟨1, 20000010, true, [], []⟩, ⟨1, 20000010, true, [], []⟩] }
+    let b : Block := { Witness.honest with txs := [⟨1, 20000010, true, [], [], false⟩, ⟨1, 20000010, true, [], [], false⟩] }
     accept { Witness.ctx with dupCheck := false } b = .ok ∧ accept Witness.ctx b = .reject .txReplay ∧
-    accept Witness.ctx { Witness.honest with txs := [⟨1, 20000010, true, [], []⟩, ⟨2, 20000010, true, [5, 1], [20000010, 20000010]⟩] } = .reject .txReplay := by
+    accept Witness.ctx { Witness.honest with txs := [⟨1, 20000010, true, [], [], false⟩, ⟨2, 20000010, true, [5, 1], [20000010, 20000010], false⟩] } = .reject .txReplay := by
   decide
 
 /-- the scratch account manager IS touched by a rejected block that reaches re-execution (the only
     non-durable trace; `reject_no_effect` is about the durable part) -/
 example :
     let bad : Block := { Witness.honest with header := { Witness.honest.header with versionRoot := 9 } }
-    let r := insertBlock (σ := Unit) (fun _ => Witness.ctx) (fun u _ => u) ⟨(), none⟩ bad
+    let r := insertBlock (σ := Unit) (fun _ => Witness.ctx) (fun u _ => (u, true)) ⟨(), none⟩ bad
     r.2 = .reject .hashMismatch ∧ r.1.scratch = some 7 := by decide
 
 end LemoProofs.C02
